@@ -166,4 +166,20 @@ def transferSameZone (zone : Int) (northpin : Bool) (xin yin : F64) (northpout :
     let yout := if northpin ≠ northpout then yin + F64.ofInt ((if northpout then -1 else 1) * mgrs_utmNshift) else yin
     .ok (xin, yout, zone)
 
+/-! ## `Transfer` in full, around its two kernels
+
+`rev` = what `UTMUPS::Reverse(zonein, northpin, xin, yin, lat, lon)` does (error, or `(lat, lon)`), `fwd` = what
+`UTMUPS::Forward(lat, lon, zone, northp, x, y, setzone)` does.  Only the bookkeeping is modelled here. -/
+
+def transfer (zonein : Int) (northpin : Bool) (xin yin : F64) (zoneout : Int) (northpout : Bool)
+    (rev : Int → Bool → F64 → F64 → Except Err (F64 × F64))
+    (fwd : F64 → F64 → Int → Except Err FwdOut) : Except Err (F64 × F64 × Int) :=
+  if zonein ≠ zoneout then do
+    let (lat, lon) ← rev zonein northpin xin yin
+    let o ← fwd lat lon (if zoneout = zMATCH then zonein else zoneout)
+    if o.zone = 0 ∧ o.northp ≠ northpout then throw "UPS between hemispheres"
+    let yout := if o.northp ≠ northpout then o.y + F64.ofInt ((if northpout then -1 else 1) * mgrs_utmNshift) else o.y
+    pure (o.x, yout, o.zone)
+  else transferSameZone zonein northpin xin yin northpout
+
 end GeoVerif.UTMUPS
